@@ -4,7 +4,7 @@ proof  : coq/Props/C02.v over Model/Parse*.v (tables = documented tables; yield;
          on canonical trees; literal lemmas; totality / crash freedom exported to C01)
 tie    : T  Gen/TokenTypes.v, Gen/ParserTables.v regenerated from token/token.go, parser/parser.go,
             parser/expression_parser.go, parser/helper.go
-         C  extracted model (build/modelrun_parse) vs the real parser (build/implrun parse) on the
+         C  extracted model (build/modelrun_parse) vs the real parser (build/implrun parsetree) on the
             significant token stream the real lexer produces: every .vcl of the repository, grammar
             programs and snippets, generated expressions (depth <= 6 / 10), all operator pairs x nesting x
             parentheses, INT64 boundary literals, every escape form, if / switch shapes; and a malformed
@@ -130,7 +130,7 @@ def run(ctx):
     proved = ctx.prove()
     with V.Lock("build"):
         model = V.driver("parse")
-    impl = [os.path.join(V.BUILD, "implrun"), "parse"]
+    impl = [os.path.join(V.BUILD, "implrun"), "parsetree"]
     ctx.trusted += [
         "Coq 8.16.1 kernel (coqc; vm_compute for the table obligation over the 87 token types; no native_compute)",
         "axioms: none (Print Assumptions of every theorem of Props/C02.v: Closed under the global context)",
